@@ -15,6 +15,6 @@ static void prop_object(Tape &t, Ctx &c) {
     if (t.b()) object_export_case<AMG>(t, c, "amg<rs,gauss_seidel>::prm.get", NoFix(), [](const AMG &a, ptree &out) { a.prm.get(out, ""); });
     else object_export_case<AMG2>(t, c, "amg<aggr,iluk>::prm.get", NoFix(), [](const AMG2 &a, ptree &out) { a.prm.get(out, ""); });
 }
-static std::vector<Prop> props() { return {Prop("probe_amg_params", prop_params, 300, 3000, 100, 8, {1}, 1, 2), Prop("probe_amg_object", prop_object, 150, 1500, 100, 30, {1}, 1, 2)}; }
+static std::vector<Prop> props() { return {Prop("probe_amg_params", prop_params, 300, 3000, 100, 8, {1}, 1, 2), Prop("probe_amg_object", prop_object, 150, 1500, 100, 4, {1}, 1, 2)}; }
 static std::vector<Enum> enums() { return {}; }
 VF_MAIN(props(), enums())
